@@ -341,10 +341,10 @@ class FunctionAnalyser(NodeVisitor):
 
     def visit_Delete(self, node: ast.Delete) -> None:
         """Visit ast.Delete(targets)."""
+        self.generic_visit(node)
+
         for target in node.targets:
             self.context.remove_identifiers_from_context(target)
-
-        self.generic_visit(node)
 
     def _visit_for_loop(self, node: ast.For | ast.AsyncFor) -> None:
         self.context.add_identifiers_to_context(node.target)
